@@ -8,7 +8,7 @@
    matches at a position, the default processor, the loop of `Model: v*=T;`).  The writing side
    (quote, dec_text, float_chars, bool_spellings) is Model/BaseLits.v. *)
 From TxV Require Import Core.Base Model.Rx Gen.SrcRegex Gen.SrcBaseConv Model.BaseTypes Model.BaseLits
-  Proofs.RxProofs Proofs.BaseTypesProofs.
+  Proofs.RxProofs Proofs.RxLibProofs Proofs.BaseTypesProofs.
 
 (* ---- STRING.  Any strings that do not end in a backslash, each written between either quote
    character with only that quote escaped, separated by any (possibly empty) whitespace, on one line
@@ -125,11 +125,76 @@ Example C04_delimiter_needed :
 Proof. vm_compute. split; reflexivity. Qed.
 Print Assumptions C04_delimiter_needed.
 
-(* NOT PROVED (kept visible): the instance of the loading-loop theorem for sequences of numbers,
-     forall items separated by non-empty whitespace, load_many (src_env u) TNUMBER (text items) = Some (values items);
-   the loop lemma (BaseTypesProofs.load_seq) is generic and is instantiated for STRING above; for numbers the
-   per-literal theorems above hold at every position with every delimited continuation, and whitespace is a
-   delimiter (BaseTypesProofs.is_ws_delimited); sequences of numbers are covered by the correspondence runs. *)
+(* ---- sequences through the loading loop, every base type.  A list of values written with whitespace between them
+   (non-empty between two values, arbitrary before the first and after the last) loads through `Model: v*=T;` as
+   exactly those values.  (STRING: C04_string_roundtrip above, where even empty separators are allowed.) *)
+Theorem C04_int_seq : forall u (items : list (Z * list N)) w0,
+  (forall z w, In (z, w) items -> forallb is_ws w = true) -> seps_ok items -> forallb is_ws w0 = true ->
+  load_many (src_env u) TINT (w0 ++ items_text dec_text items) = Some (map (fun it => VInt (fst it)) items).
+Proof. exact int_seq. Qed.
+Print Assumptions C04_int_seq.
+
+(* NUMBER: integers and float literals mixed; each integer comes back as that int, each float literal is handed
+   in full to float() *)
+Theorem C04_number_seq : forall u (items : list (numlit * list N)) w0,
+  (forall n w, In (n, w) items -> numlit_ok n = true /\ forallb is_ws w = true) -> seps_ok items ->
+  forallb is_ws w0 = true ->
+  load_many (src_env u) TNUMBER (w0 ++ items_text numlit_text items)
+  = Some (map (fun it => match fst it with
+                         | NLInt z => VInt z
+                         | NLFloat so m eo => VFloat (float_chars so m eo)
+                         end) items).
+Proof. exact number_seq. Qed.
+Print Assumptions C04_number_seq.
+
+Theorem C04_float_seq : forall u t (items : list (numlit * list N)) w0,
+  t = TFLOAT \/ t = TSTRICTFLOAT ->
+  (forall n w, In (n, w) items -> numlit_ok n = true /\ numlit_is_float n = true /\ forallb is_ws w = true) ->
+  seps_ok items -> forallb is_ws w0 = true ->
+  load_many (src_env u) t (w0 ++ items_text numlit_text items) = Some (map (fun it => VFloat (numlit_text (fst it))) items).
+Proof. exact float_seq. Qed.
+Print Assumptions C04_float_seq.
+
+Theorem C04_bool_seq : forall u (items : list (list N * bool * list N)) w0,
+  (forall sp b w, In (sp, b, w) items -> In (sp, b) bool_spellings /\ forallb is_ws w = true) -> seps_ok items ->
+  forallb is_ws w0 = true ->
+  load_many (src_env u) TBOOL (w0 ++ items_text (fun sb => fst sb) items) = Some (map (fun it => VBool (snd (fst it))) items).
+Proof. exact bool_seq. Qed.
+Print Assumptions C04_bool_seq.
+
+Example C04_seq_nonvacuous :
+  let items := [(NLInt (-12), [32]%N); (NLFloat None (MLead [53]%N) None, [10; 9]%N); (NLInt 7, [])] in
+  seps_ok items /\ forallb (fun it => numlit_ok (fst it)) items = true /\
+  items_text numlit_text items = [45; 49; 50; 32; 46; 53; 10; 9; 55]%N /\
+  load_many (src_env ascii_only) TNUMBER ([32]%N ++ items_text numlit_text items)
+  = Some [VInt (-12); VFloat [46; 53]%N; VInt 7].
+Proof. vm_compute. repeat split; try reflexivity; discriminate. Qed.
+Print Assumptions C04_seq_nonvacuous.
+
+(* the separator hypothesis is needed: "1-2" is two INTs, but "12" written as "1" "2" without a separator is one *)
+Example C04_separator_needed :
+  load_many (src_env ascii_only) TINT (dec_text 1 ++ dec_text 2) = Some [VInt 12].
+Proof. vm_compute. reflexivity. Qed.
+Print Assumptions C04_separator_needed.
+
+(* ---- conversely, for EVERY text: whatever FLOAT or STRICTFLOAT matches ends at a delimiter (end of text or a
+   character that is neither a word character nor '.'), so a number is never cut out of a longer word such as
+   `1.5x`, `3.method` or `1.5.2` *)
+Theorem C04_float_match_delimited : forall u t pre text n,
+  t = TFLOAT \/ t = TSTRICTFLOAT ->
+  bt_match (src_env u) t pre text = Some (t, n) ->
+  exists lit rest, text = lit ++ rest /\ length lit = n /\
+    match rest with [] => True | c :: _ => is_word (src_env u) c = false /\ c <> 46%N end.
+Proof. exact float_match_delimited. Qed.
+Print Assumptions C04_float_match_delimited.
+
+Example C04_float_match_delimited_nonvacuous :
+  bt_match (src_env ascii_only) TFLOAT [] [49; 46; 53; 45; 50]%N = Some (TFLOAT, 3%nat) /\
+  load_alts (src_env ascii_only) [TFLOAT; TID] [49; 46; 53; 120]%N = None /\
+  load_alts (src_env ascii_only) [TNUMBER; TID] [49; 101; 53; 101]%N
+  = Some [(0%nat, VInt 1, 0%nat, 1%nat); (1%nat, VStr [101; 53; 101]%N, 1%nat, 4%nat)].
+Proof. vm_compute. repeat split; reflexivity. Qed.
+Print Assumptions C04_float_match_delimited_nonvacuous.
 
 (* ---- the engine's fuel is never exhausted: every fuel above lo + |rest| gives the same list of successes
    (so the out-of-fuel value [] of rep_loop plays no role in any match) *)
@@ -143,3 +208,40 @@ Example C04_rx_fuel_nonvacuous :
   = [([50; 49]%N, [97]%N); ([49]%N, [50; 97]%N)].
 Proof. vm_compute. reflexivity. Qed.
 Print Assumptions C04_rx_fuel_nonvacuous.
+
+(* ---- general facts about the engine, for reuse by other properties (Proofs/RxLibProofs.v) *)
+
+(* a literal pattern (as the translator emits it) matches exactly when the input starts with the literal *)
+Theorem C04_rx_literal : forall E l pre s,
+  rx_match E (rx_lit l) pre s = if lit_pre E l s then Some (length l) else None.
+Proof. exact rx_match_lit. Qed.
+Print Assumptions C04_rx_literal.
+
+(* the keyword pattern `lit\b`: the literal, then a word boundary between the last consumed character and the next.
+   (Proofs/RxKwProofs.rx_kw_agrees_with_kw_match: this is the hand-written kw_match of Model/Kw.v, for every
+   literal, input and position.) *)
+Theorem C04_rx_keyword : forall E l pre s,
+  rx_match E (rx_kw l) pre s =
+  if (lit_pre E l s && word_boundary E (rev (firstn (length l) s) ++ pre, skipn (length l) s))%bool
+  then Some (length l) else None.
+Proof. exact rx_match_kw. Qed.
+Print Assumptions C04_rx_keyword.
+
+(* IGNORECASE: for EVERY regex of the subset, inputs that differ only in the case of ASCII letters (before and
+   after the match position) give the same match *)
+Theorem C04_rx_ignorecase : forall E r pre1 pre2 rest1 rest2,
+  e_ignorecase E = true ->
+  Forall2 (fun a b => lower_ascii a = lower_ascii b) pre1 pre2 ->
+  Forall2 (fun a b => lower_ascii a = lower_ascii b) rest1 rest2 ->
+  rx_match E r pre1 rest1 = rx_match E r pre2 rest2.
+Proof. exact rx_match_ignorecase. Qed.
+Print Assumptions C04_rx_ignorecase.
+
+Example C04_rx_lib_nonvacuous :
+  let E := mkenv true true false ascii_only in
+  rx_match E (rx_kw [105; 102]%N) [] [73; 70; 32; 120]%N = Some 2%nat /\
+  rx_match E (rx_kw [105; 102]%N) [] [105; 102; 120]%N = None /\
+  rx_match (env_ml ascii_only) (rx_lit [105; 102]%N) [] [73; 70]%N = None /\
+  Forall2 (fun a b => lower_ascii a = lower_ascii b) [73; 70; 32; 120]%N [105; 102; 32; 88]%N.
+Proof. vm_compute. repeat split; try reflexivity; repeat constructor. Qed.
+Print Assumptions C04_rx_lib_nonvacuous.
